@@ -41,6 +41,13 @@ def env():
         def __repr__(self):
             return "c%s" % self.name
 
+        # deterministic hash (identity equality is kept): set iteration order, hence set.pop()
+        # and event order, then depend only on the operation history, not on object addresses
+        def __hash__(self):
+            return self.__dict__.get("_c38_hash", 0)
+
+        __eq__ = object.__eq__
+
     class PList(Base):
         __tablename__ = "c38_plist"
         id = Column(Integer, primary_key=True)
@@ -67,6 +74,8 @@ def env():
 def new_items():
     E = env()
     items = [E["Child"](name=str(i)) for i in range(NITEMS)]
+    for i, it in enumerate(items):
+        it.__dict__["_c38_hash"] = (i * 5 + 3) % 16  # collides modulo the small set table sizes
     return items, {id(o): i for i, o in enumerate(items)}
 
 
